@@ -21,6 +21,12 @@ func main() {
 		cmdCheck(os.Args[2:])
 	case "dyn":
 		cmdDyn(os.Args[2:])
+	case "writers":
+		if len(os.Args) == 2 {
+			cmdWriterKeys()
+			return
+		}
+		cmdWriters(os.Args[2:])
 	default:
 		fmt.Fprintln(os.Stderr, "unknown subcommand", os.Args[1])
 		os.Exit(2)
